@@ -6,7 +6,7 @@
 #![allow(clippy::type_complexity, deprecated)]
 
 use cipher::{
-    AlgorithmName, Block, BlockCipherDecrypt, BlockCipherEncrypt, BlockSizeUser, Key, KeyInit,
+    AlgorithmName, Block as CBlock, BlockCipherDecrypt, BlockCipherEncrypt, BlockSizeUser, Key, KeyInit,
     KeySizeUser,
     array::Array,
     inout::InOutBuf,
@@ -16,6 +16,20 @@ use std::panic::{AssertUnwindSafe, catch_unwind};
 
 mod special;
 mod zero;
+
+// The 32-bit fixsliced AES of /repo is selected by the crate only when target_pointer_width != 64, so no build on
+// this host ever compiles it.  It is pure safe Rust: include THE FILE OF THE REPOSITORY as a module of the harness
+// (`crate::Block` / `crate::hazmat::{Block, Block8}` are what it imports from the aes crate root) — DESIGN §4.4.
+pub type Block = Array<u8, cipher::consts::U16>;
+#[cfg(feature = "hazmat")]
+pub mod hazmat {
+    pub type Block = super::Block;
+    pub type Block8 = cipher::array::Array<Block, cipher::consts::U8>;
+}
+#[allow(dead_code, unused, clippy::all)]
+#[path = "/repo/aes/src/soft/fixslice32.rs"]
+mod fixslice32;
+mod fs32;
 
 /// Allocator that paints fresh blocks with 0xCD and freed blocks with 0xDD, so that a partially initialised
 /// value moved to the heap cannot be completed by the stale contents of an earlier instance with the same key.
@@ -113,11 +127,11 @@ impl<T: BlockCipherEncrypt + BlockCipherDecrypt + MaybeDebug + MaybeClone + Send
         T::block_size()
     }
     fn enc(&self, b: &mut [u8]) -> bool {
-        self.0.encrypt_block(Block::<T>::from_mut_slice(b));
+        self.0.encrypt_block(CBlock::<T>::from_mut_slice(b));
         true
     }
     fn dec(&self, b: &mut [u8]) -> bool {
-        self.0.decrypt_block(Block::<T>::from_mut_slice(b));
+        self.0.decrypt_block(CBlock::<T>::from_mut_slice(b));
         true
     }
     fn many(&self, dec: bool, shape: &str, inp: &[u8], out: &mut [u8]) -> bool {
@@ -142,7 +156,7 @@ impl<T: BlockCipherEncrypt + MaybeDebug + MaybeClone + Send + Sync + 'static> Ob
         T::block_size()
     }
     fn enc(&self, b: &mut [u8]) -> bool {
-        self.0.encrypt_block(Block::<T>::from_mut_slice(b));
+        self.0.encrypt_block(CBlock::<T>::from_mut_slice(b));
         true
     }
     fn dec(&self, _b: &mut [u8]) -> bool {
@@ -171,7 +185,7 @@ impl<T: BlockCipherDecrypt + MaybeDebug + MaybeClone + Send + Sync + 'static> Ob
         false
     }
     fn dec(&self, b: &mut [u8]) -> bool {
-        self.0.decrypt_block(Block::<T>::from_mut_slice(b));
+        self.0.decrypt_block(CBlock::<T>::from_mut_slice(b));
         true
     }
     fn many(&self, dec: bool, shape: &str, inp: &[u8], out: &mut [u8]) -> bool {
@@ -448,6 +462,9 @@ fn exec(reg: &[Entry], line: &str) -> String {
         return "bad-op".into();
     }
     if let Some(r) = special::exec(&t) {
+        return r;
+    }
+    if let Some(r) = fs32::exec(&t) {
         return r;
     }
     if t[0] == "hist" {
